@@ -1,0 +1,32 @@
+//go:build verif
+
+// Contracts for the deductive checks under /verif (comment-only; no code).
+
+package autoconf
+
+// ---- C45: the cached read returns the newest version that is intact ----------------------
+// Crash model (assumption A, stated in DESIGN.md): a process stop during os.WriteFile(f)
+// leaves every other file intact and leaves f absent, complete, or a strict prefix of the
+// JSON document, which does not parse. The reader's obligation is then: fail (and let the
+// caller use the built-in fallback) only if no cached version is readable and parses.
+//@ spec readable(name string) bool
+//@ spec fileData(name string) []byte
+//@ spec parses(data []byte) bool
+//@ macro intact(p) = readable(p) && parses(fileData(p))
+//@ func ext os.ReadFile
+//@   ensures (err == nil) == readable(name)
+//@   ensures err == nil ==> result0 == fileData(name)
+//@ func ext encoding/json.Unmarshal
+//@   ensures (err == nil) == parses(data)
+//@ func (*Client).listCacheFiles
+//@   assumed
+
+//@ func (*Client).getCachedConfig
+//@   prop C45
+//@   arith int
+//@   requires c != nil
+//@   modifies all
+//@   loop 0 invariant[newer_not_intact] forall(j, 0, rangeindex + 1, !intact(files[j]))
+//@   loop 0 invariant[error_recorded] rangeindex >= 0 ==> lastErr != nil
+//@   ensures[fails_only_if_none_intact] err != nil && res("call:Client.listCacheFiles#0", 1) == nil ==> forall(j, 0, len(res("call:Client.listCacheFiles#0")), !intact(res("call:Client.listCacheFiles#0")[j]))
+//@   ensures[config_or_error] (err == nil) != (result0 == nil)
